@@ -1571,6 +1571,29 @@ func (c *Ctx) StringIndexGuards(include func(*ssa.Function) bool) []core.Ob {
 						}
 					}
 				}
+				// s != "" / s == "" on a dominating block (enough for index 0)
+				if !guarded && idx == 0 {
+					for _, base := range bases {
+						if base.Referrers() == nil {
+							continue
+						}
+						for _, r := range *base.Referrers() {
+							cmp, ok := r.(*ssa.BinOp)
+							if !ok || (cmp.Op != token.EQL && cmp.Op != token.NEQ) {
+								continue
+							}
+							other := cmp.Y
+							if cmp.Y == base {
+								other = cmp.X
+							}
+							if kc, ok := other.(*ssa.Const); ok && kc.Value != nil && kc.Value.Kind() == constant.String && constant.StringVal(kc.Value) == "" {
+								if cmp.Block() != lk.Block() && cmp.Block().Dominates(lk.Block()) {
+									guarded = true
+								}
+							}
+						}
+					}
+				}
 				// strings.HasPrefix(s, "x") && ... s[k] with k < len(prefix)
 				if !guarded && lk.X.Referrers() != nil {
 					for _, r := range *lk.X.Referrers() {
@@ -3503,6 +3526,33 @@ func (c *Ctx) SignedArrayTargets(pkgs ...string) []core.Ob {
 				continue
 			}
 			k := 0
+			// a generic decode helper instantiated for the element type: appendInts[int8](..)
+			ast.Inspect(cc, func(n ast.Node) bool {
+				call, ok := n.(*ast.CallExpr)
+				if !ok {
+					return true
+				}
+				ix, ok := ast.Unparen(call.Fun).(*ast.IndexExpr)
+				if !ok {
+					return true
+				}
+				tv, ok := info.Types[ix.Index]
+				if !ok || !tv.IsType() {
+					return true
+				}
+				eb, ok := tv.Type.Underlying().(*types.Basic)
+				if !ok || eb.Info()&types.IsInteger == 0 {
+					return true
+				}
+				k++
+				o := core.Ob{Rule: "T-SIGNED", Key: fmt.Sprintf("%s#switch%d:%s:instance%d", ts.fn, ts.ordinal, ts.names[tag], k), Pos: c.P.Pos(call.Pos()), Func: ts.fn, Armed: true, Status: core.OK,
+					Want: fmt.Sprintf("the element type the %s payload is decoded with is signed (%s)", ts.names[tag], types.Typ[kind])}
+				if eb.Info()&types.IsUnsigned != 0 {
+					o.Status, o.Got = core.Violated, "element type "+tv.Type.String()+" is unsigned: negative elements come out as large positive numbers"
+				}
+				obs = append(obs, o)
+				return true
+			})
 			ast.Inspect(cc, func(n ast.Node) bool {
 				id, ok := n.(*ast.Ident)
 				if !ok {
@@ -3827,6 +3877,24 @@ func (c *Ctx) DrainBeforeClose(pkg string) []core.Ob {
 				iff, ok := b.Instrs[len(b.Instrs)-1].(*ssa.If)
 				if !ok {
 					continue
+				}
+				// `v, ok := p.pop(); if ok ...`: the comma-ok result of a call; not-ok is "empty"
+				{
+					cond, neg := iff.Cond, false
+					if u, isNot := cond.(*ssa.UnOp); isNot && u.Op == token.NOT {
+						cond, neg = u.X, true
+					}
+					if ex, isEx := cond.(*ssa.Extract); isEx {
+						if _, fromCall := ex.Tuple.(*ssa.Call); fromCall {
+							if bt, isB := ex.Type().Underlying().(*types.Basic); isB && bt.Kind() == types.Bool {
+								if neg {
+									emptyEdges = append(emptyEdges, b.Succs[0])
+								} else {
+									emptyEdges = append(emptyEdges, b.Succs[1])
+								}
+							}
+						}
+					}
 				}
 				cmp, ok := iff.Cond.(*ssa.BinOp)
 				if !ok {
